@@ -8,6 +8,8 @@ CONSTANTS
   \* (thorough adds a second end vector with a zero and the exponent 3)
   CycSet <- CycParamsQ
   Cyc = FALSE
+  Dec = FALSE
+  DecSet <- DecParamsQ
 SPECIFICATION Spec
 INVARIANTS DefinitionsAgree VitMeaning VitResult MantissaBound NoStall
 PROPERTY Progress
